@@ -755,6 +755,80 @@ struct Runner {
 		o.flush();
 	}
 
+#if VH_LOG
+	// Logger sweep (C16): `attachLogger(nullptr)` / `attachLogger(&logger)` in mid-run, between operations with live
+	// callbacks (requests, cancelling guards, task statuses, plans).  With the logger detached no record may arrive and
+	// everything else must go on exactly as the model says; re-attached, the records resume.
+	void sweepLogger(uint64_t seed, int index, int opCount) {
+		Script& s = script();
+		s.prng = Prng{seed * 7777789ull + 57};
+		s.recentCount = 0;
+		Knobs& kn = s.knobs;
+		kn = Knobs{};
+		kn.idle     = 50 + s.prng.below(40);
+		kn.cancel   = s.prng.below(25);
+		kn.guardReq = s.prng.below(20);
+		kn.consume  = s.prng.below(20);
+		kn.planEdit = s.prng.below(30);
+		kn.allowSelect  = true;
+		kn.allowUtility = !skipListed("utility");
+		Out& o = out();
+		o << "scenario " << index << "\n" << "shape " << SHAPE_TEXT << "\n";
+		configLine();
+		const int k = 0;
+		o << "op " << k << " new\n";
+		s.firstActivation = true; construct(k, 0xAA); s.firstActivation = false;
+		o << "end\n"; snap(k);
+#if VH_MANUAL
+		o << "op 0 enter\n";
+		enterCall(0);
+		s.firstActivation = true;
+		{ ApiScope scope; inst(0).enter(); }
+		s.firstActivation = false;
+		o << "end\n"; snap(0);
+#endif
+		long toggles = 0, detachedOps = 0;
+		bool attached = true;
+		for (int n = 0; n < opCount; ++n) {
+			Instance& m = inst(k);
+			const unsigned r = s.prng.below(100);
+			if (r < 14) {
+				attached = !attached;
+				o << "op " << k << " attachlogger " << (attached ? 1 : 0) << "\n";
+				enterCall(k); { ApiScope scope; m.attachLogger(attached ? &logger : nullptr); }
+				++toggles;
+			} else if (r < 45) {
+				o << "op " << k << " update\n";
+				enterCall(k); { ApiScope scope; m.update(); }
+			} else if (r < 58) {
+				o << "op " << k << " react\n";
+				enterCall(k); { ApiScope scope; m.react(Ev{}); }
+			} else if (r < 62) {
+				o << "op " << k << " query\n";
+				Qy q; enterCall(k); { ApiScope scope; m.query(q); }
+			} else {
+				const bool immediate = r >= 85;
+				const int kind = s.randomKind(!immediate), dest = s.requestDest(), payload = s.randomPayload();
+				o << "op " << k << (immediate ? " imm " : " req ") << std::string(1, KIND_LETTER[kind]) << " " << dest << " "
+				  << (payload < 0 ? std::string("-") : std::to_string(payload)) << "\n";
+				apiRequest(k, immediate, kind, dest, payload);
+			}
+			if (!attached) ++detachedOps;
+			o << "end\n"; snap(k);
+			if (o.buf.size() > (1u << 20)) o.flush();
+		}
+		if (!attached) {		// the logger object outlives the instance either way; re-attach so that the exit is recorded
+			o << "op " << k << " attachlogger 1\n";
+			enterCall(k); { ApiScope scope; inst(k).attachLogger(&logger); }
+			o << "end\n"; snap(k);
+		}
+		o << "op " << k << " destroy\n"; destroy(k); o << "end\n";
+		o << "# stat logger_sweep_toggles=" << static_cast<long long>(toggles) << "\n";
+		o << "# stat logger_sweep_ops_detached=" << static_cast<long long>(detachedOps) << "\n";
+		o.flush();
+	}
+#endif
+
 	void scenario(uint64_t seed, int index, int opCount) {
 		Script& s = script();
 		s.prng = Prng{seed * 1000003ull + static_cast<uint64_t>(index)};
@@ -1040,6 +1114,10 @@ inline int run(int argc, char** argv) {
 #if VH_UTIL
 	if (sweep > 0)
 		runner.sweepZeroUtility(seed, scenarios + 2);
+#endif
+#if VH_LOG
+	if (sweep > 0)
+		runner.sweepLogger(seed, scenarios + 4, sweep < 120 ? 120 : sweep);
 #endif
 	out() << "# stat assertion_hits=" << static_cast<long long>(g_assertionHits) << "\n";
 	out() << "# stat allocations_inside_api=" << static_cast<long long>(allocStats().inside) << "\n";
